@@ -290,7 +290,7 @@ impl Property for C07 {
         let env = FEnv {
             props: &props,
             labels: &labels,
-            cfg: FCfg { max_quant_depth: 5, ..FCfg::EXTENDED_WEAK },
+            cfg: FCfg { max_quant_depth: 12, ..FCfg::EXTENDED_WEAK },
             binders: &BINDERS_C07,
         };
         let f = gen::resolve_f(&raw.0, &env);
